@@ -37,6 +37,27 @@ Lemma node_wiring :
   map (fun row => (nth 0 row [], nth 3 row [])) c19_node_bidderapi_args = [(bos "preconfProto", bos "validator")].
 Proof. split; reflexivity. Qed.
 
+(* which received field goes to which field of the streamed bidderapi.v1.Commitment: the
+   composite literal handed to srv.Send, field by field (b := resp.Bid).  [commitment_of] in the
+   model is this table: split of b.TxHash, b.BidAmount, b.BlockNumber, hex of b.Digest,
+   b.Signature, resp.Digest, resp.Signature, resp.ProviderAddress, and b's decay timestamps. *)
+Definition commitment_mapping : list (bytes * bytes) :=
+  [ (bos "TxHashes", bos "strings.Split(b.TxHash, "","")");
+    (bos "BidAmount", bos "b.BidAmount");
+    (bos "BlockNumber", bos "b.BlockNumber");
+    (bos "ReceivedBidDigest", bos "hex.EncodeToString(b.Digest)");
+    (bos "ReceivedBidSignature", bos "hex.EncodeToString(b.Signature)");
+    (bos "CommitmentDigest", bos "hex.EncodeToString(resp.Digest)");
+    (bos "CommitmentSignature", bos "hex.EncodeToString(resp.Signature)");
+    (bos "ProviderAddress", bos "common.Bytes2Hex(resp.ProviderAddress)");
+    (bos "DecayStartTimestamp", bos "b.DecayStartTimestamp");
+    (bos "DecayEndTimestamp", bos "b.DecayEndTimestamp") ].
+Definition render_literal (m : list (bytes * bytes)) : bytes :=
+  bos "&bidderapiv1.Commitment{ " ++
+  concat (map (fun fe => fst fe ++ bos ": " ++ snd fe ++ bos ", ") m) ++ bos "}".
+Lemma commitment_mapping_source : c19_commitment_literal = [[render_literal commitment_mapping]].
+Proof. vm_compute. reflexivity. Qed.
+
 (* ---------------------------------------------------------------------------------------- *)
 (* Refusal and forwarding                                                                    *)
 (* ---------------------------------------------------------------------------------------- *)
@@ -164,18 +185,49 @@ Proof.
   destruct k as [|k]; cbn [snd length pred_opt]; [lia|]. specialize (IH k). lia.
 Qed.
 
+(* no Send fails when the oracle never fails or its failing index lies beyond the list *)
+Definition no_send_fails (fail_at : option nat) (n : nat) : Prop :=
+  fail_at = None \/ exists k, fail_at = Some k /\ (n <= k)%nat.
+
+Lemma stream_loop_completes_gen cs : forall fail_at,
+  no_send_fails fail_at (length cs) -> Forall complete cs -> fst (stream_loop cs fail_at) = RNil.
+Proof.
+  intros fa Hn H. revert fa Hn.
+  induction H as [|c rest [p [b [-> E]]] _ IH]; intros fa Hn; cbn [stream_loop]; [reflexivity|].
+  rewrite E. destruct fa as [[|k]|]; cbn [fst pred_opt].
+  - destruct Hn as [Hn | [k [Hk Hl]]]; [discriminate|]. inversion Hk; subst. cbn in Hl. lia.
+  - apply IH. right. exists k. split; [reflexivity|].
+    destruct Hn as [Hn | [k' [Hk Hl]]]; [discriminate|]. inversion Hk; subst. cbn in Hl. lia.
+  - apply IH. left. reflexivity.
+Qed.
+
+(* the stream's own error is returned exactly for the Send that failed: it was the last message *)
+Lemma stream_loop_stream_err cs : forall fail_at,
+  fst (stream_loop cs fail_at) = RStreamErr ->
+  exists k, fail_at = Some k /\ length (snd (stream_loop cs fail_at)) = S k.
+Proof.
+  induction cs as [|[p|] rest IH]; intros fa; cbn [stream_loop]; try (cbn; discriminate).
+  destruct (pc_bid p) as [b|]; [|cbn; discriminate].
+  destruct fa as [[|k]|]; cbn [fst snd length pred_opt].
+  - intros _. exists 0%nat. auto.
+  - intros H. destruct (IH _ H) as [k' [Hk Hl]]. inversion Hk; subst. exists (S k'). rewrite Hl. auto.
+  - intros H. destruct (IH _ H) as [k' [Hk _]]. discriminate.
+Qed.
+
 Theorem commitment_stream r cs fail_at :
   request_spec r ->
   let m := send_bid (Some r) (SenderReturns cs) fail_at in
   Forall2 reproduces (firstn (length (streamed m)) cs) (streamed m) /\
   (res m = RNil -> length (streamed m) = length cs) /\
-  (fail_at = None -> Forall complete cs -> res m = RNil) /\
-  (Forall complete cs -> res m <> RPanic).
+  ((fail_at = None \/ exists k, fail_at = Some k /\ (length cs <= k)%nat) -> Forall complete cs -> res m = RNil) /\
+  (Forall complete cs -> res m <> RPanic) /\
+  (res m = RStreamErr -> exists k, fail_at = Some k /\ length (streamed m) = S k).
 Proof.
   intros H. apply validate_spec in H. unfold send_bid. rewrite H. cbn [negb res streamed].
-  split; [apply stream_loop_prefix|]. split; [apply stream_loop_all|]. split.
-  - intros ->. apply stream_loop_completes.
+  split; [apply stream_loop_prefix|]. split; [apply stream_loop_all|]. split; [|split].
+  - apply stream_loop_completes_gen.
   - apply stream_loop_no_panic.
+  - apply stream_loop_stream_err.
 Qed.
 
 Theorem sender_failure r fail_at :
@@ -320,11 +372,22 @@ Proof.
       destruct (result_code (fst (stream_loop cs fail_at)) =? 0) eqn:R0.
       * assert (RN : fst (stream_loop cs fail_at) = RNil) by (destruct (fst (stream_loop cs fail_at)); try discriminate; reflexivity).
         rewrite (stream_loop_all cs fail_at RN), Nat.eqb_refl. cbn [negb andb].
-        rewrite andb_false_r. reflexivity.
-      * cbn [andb negb].
-        destruct (snd (images cs)) eqn:W; [|reflexivity].
-        destruct fail_at as [k|]; [reflexivity|]. exfalso.
-        apply images_complete in W. rewrite (stream_loop_completes cs W) in R0. discriminate.
+        rewrite andb_false_r. rewrite RN. reflexivity.
+      * cbn [andb negb]. rewrite andb_true_r.
+        assert (C1 : snd (images cs) && no_failure fail_at (length cs) = false).
+        { destruct (snd (images cs)) eqn:W; [|reflexivity].
+          destruct (no_failure fail_at (length cs)) eqn:NF; [|reflexivity]. exfalso.
+          apply images_complete in W.
+          assert (Hn : no_send_fails fail_at (length cs)).
+          { unfold no_failure in NF. destruct fail_at as [k|]; [|left; reflexivity].
+            right. exists k. split; [reflexivity|]. apply Nat.leb_le. exact NF. }
+          rewrite (stream_loop_completes_gen cs fail_at Hn W) in R0. discriminate. }
+        rewrite C1.
+        destruct (result_code (fst (stream_loop cs fail_at)) =? 3) eqn:R3; [|reflexivity].
+        assert (RS : fst (stream_loop cs fail_at) = RStreamErr)
+          by (destruct (fst (stream_loop cs fail_at)); try discriminate; reflexivity).
+        destruct (stream_loop_stream_err cs fail_at RS) as [k [-> Hl]].
+        unfold stopped_at. rewrite Hl, Nat.eqb_refl. reflexivity.
   - (* refused *)
     assert (Hv : (verdict_code (bidder_bid_verdict (r_txs r) (r_amount r) (r_bn r) (r_ds r) (r_de r)) =? 0) = false).
     { destruct (bidder_bid_verdict (r_txs r) (r_amount r) (r_bn r) (r_ds r) (r_de r)) eqn:V; try reflexivity.
@@ -341,3 +404,20 @@ Proof.
   rewrite (list_eqb_refl forwarded_eqb forwarded_eqb_refl), (list_eqb_refl commitment_eqb commitment_eqb_refl).
   reflexivity.
 Qed.
+
+(* The audit's silent case is now a violation: a valid request, two complete commitments, a
+   stream oracle whose failing index lies beyond the list, yet the implementation is observed
+   to stop after one message with the stream's error. *)
+Example early_stop_flagged :
+  check_send (Some sample_request) (SenderReturns [Some sample_preconf; Some sample_preconf]) (Some 7%nat)
+             0 3 [expected_forward sample_request] [image sample_preconf sample_pbid]
+  = Some "commitment-differs"%string.
+Proof. vm_compute. reflexivity. Qed.
+(* ... and so is the stream's error reported although the failing Send was not the last message *)
+Example wrong_stop_flagged :
+  check_send (Some sample_request)
+             (SenderReturns [Some sample_preconf; Some sample_preconf; Some {| pc_bid := None; pc_digest := []; pc_sig := []; pc_prov := [] |}])
+             (Some 1%nat)
+             0 3 [expected_forward sample_request] [image sample_preconf sample_pbid]
+  = Some "commitment-differs"%string.
+Proof. vm_compute. reflexivity. Qed.
